@@ -152,6 +152,16 @@ fn bb_expected(kind: &str, k: usize) -> (Vec<String>, Option<usize>) {
                 (vec![lost, "abort".into()], None)
             }
         }
+        "cl_close_at" => {
+            // Content-Length: 20 + Connection: close (head 58 bytes)
+            if k >= 78 {
+                (vec!["relay".into()], Some(20))
+            } else if k < 58 {
+                (vec![d(502)], None)
+            } else {
+                (vec!["abort".into()], None)
+            }
+        }
         "close_delim_at" => {
             if k >= BB_HEAD_CD {
                 (vec!["relay".into()], Some(k.min(BB_HEAD_CD + 20) - BB_HEAD_CD))
